@@ -555,6 +555,7 @@ func init() {
 		checkResultShape(r, prog, a, a.CreateEv, "c10")
 		r.importing = "C15"
 		checkErrorRecording(r, prog, "c15") // the budget error, once raised, is the error reported: nothing filters recorded errors
+		checkRecoverCensus(r, prog, "c15")  // … and nothing between parseExpr and parse swallows the panic that carries it
 		r.importing = ""
 		r.Technique = "field read/write census for the step counter and the budget over the whole module; dominance check of the counter test over the dispatch; who-may-call census of the engine methods (VTA call graph); symbolic transport check option→CreateEvaluator→grammar.MaxExpressions→parser field; recover discipline imported from C10"
 		r.Explain = "Proof by non-interference: the budget travels unmodified from WithMaxExpressions to parser.maxExprCnt (passed iff non-zero; zero mapped to MaxUint64 after the options are applied); the counter has exactly one writer (+1, in parseExpr's entry block) and is read only by that increment and by one ordered comparison with the budget whose exceeded edge panics with errMaxExprCnt; that test dominates the whole dispatch; every engine method is entered only through parseExpr (parseRule only from parse / parseRuleRefExpr), so every step is counted. Since nothing else reads counter or budget, a limited run executes exactly the instruction sequence of the unlimited run until the test fires: with N the unlimited run's step count, n = 0 or n ≥ N gives the identical result, 0 < n < N panics at step n+1 and never later; the panic is recovered into the error (C10). `>` and `>=` both give a threshold."
